@@ -1235,6 +1235,372 @@ impl CrashX {
     }
 }
 
+
+// ---------------------------------------------------------------------------------------------
+// Real process death: the traced operation is re-executed in a child process that aborts
+// (SIGABRT, no destructor, no unwinding) right before its k-th mutating / syncing file operation,
+// for every k. What the dead process leaves behind is a *real* crash state (the kernel releases the
+// directory lock and finishes or cancels the in-flight io_uring writes), not one synthesised from
+// a trace: it must open again at once, show exactly the old or the new state, and — as a
+// conformance check of the crash model used by the cut enumeration — every page and every file
+// length found in it must be explained by the pre-image plus the operations of the reference trace.
+
+/// Child side (`mc killchild <PROP>`, case on stdin). Prints `DIR <path>` once the database
+/// directory is known, `RETURNED` if the target operation returned, `SURVIVED` if it got to the end.
+pub fn kill_child_main(prop: &str) -> i32 {
+    use std::io::{Read, Write};
+    let mut s = String::new();
+    std::io::stdin().read_to_string(&mut s).unwrap();
+    let case: Value = serde_json::from_str(&s).expect("case json");
+    let hist = &case["hist"];
+    let target = case["target"].as_u64().unwrap() as usize;
+    let mut hx = HistX::new();
+    let mut ex = hx.start(prop, hist);
+    println!("DIR {}", ex.dir.display());
+    std::io::stdout().flush().unwrap();
+    if ex.open().is_err() {
+        println!("PREFIX-FAILED");
+        return 3;
+    }
+    let ops = hist["ops"].as_array().unwrap();
+    for (i, op) in ops.iter().enumerate().take(target) {
+        if ex.step(i, op).is_err() {
+            println!("PREFIX-FAILED");
+            return 3;
+        }
+    }
+    if ops[target].get("reopen").is_some() {
+        ex.n = None;
+    }
+    // the physical pre-image of THIS process's run (free-list order, rollback records and page
+    // placement may differ from run to run) and, at the moment of death, this run's own I/O log
+    let root = PathBuf::from(std::env::var("MC_SCRATCH_ROOT").expect("MC_SCRATCH_ROOT"));
+    DirImage::snapshot(&ex.dir).expect("snapshot").materialize(&root.join("pre")).expect("materialize pre");
+    let log_path = root.join("trace.bin");
+    vio::set_abort_hook(Box::new(move |events| {
+        let _ = std::fs::write(&log_path, encode_events(events));
+    }));
+    vio::enable();
+    vio::arm(vio::Fault {
+        file: case["fault"]["file"].as_str().unwrap().to_string(),
+        tag: case["fault"]["tag"].as_str().unwrap().to_string(),
+        ordinal: case["fault"]["ordinal"].as_u64().unwrap(),
+        persistent: false,
+        page_at: vio::PageFaultAt::Submission,
+        abort: true,
+    });
+    nomt::verif::lazy::enable(case["lazy"].as_bool().unwrap_or(false));
+    let r = ex.step(target, &ops[target]);
+    if r.is_ok() {
+        println!("RETURNED");
+        std::io::stdout().flush().unwrap();
+    }
+    nomt::verif::lazy::enable(false);
+    let _ = ex.finish(Ok(()));
+    let _ = vio::disable();
+    println!("SURVIVED");
+    0
+}
+
+fn encode_events(events: &[vio::Event]) -> Vec<u8> {
+    let mut b = vec![];
+    let put = |b: &mut Vec<u8>, x: u64| b.extend_from_slice(&x.to_le_bytes());
+    for e in events {
+        let (tag, off, data): (u8, u64, &[u8]) = match &e.kind {
+            vio::Kind::Write { off, data } => (1, *off, data),
+            vio::Kind::Append { data } => (2, 0, data),
+            vio::Kind::SetLen(l) => (3, *l, &[]),
+            vio::Kind::Fsync => (4, 0, &[]),
+            vio::Kind::FsyncData => (5, 0, &[]),
+            vio::Kind::Create => (6, 0, &[]),
+            vio::Kind::Unlink => (7, 0, &[]),
+            vio::Kind::DirSync => (8, 0, &[]),
+            vio::Kind::Mark(m) => (9, 0, m.as_bytes()),
+        };
+        put(&mut b, e.seq);
+        put(&mut b, e.done.unwrap_or(0));
+        put(&mut b, e.performed.unwrap_or(0));
+        put(&mut b, e.file.len() as u64);
+        b.extend_from_slice(e.file.as_bytes());
+        b.push(tag);
+        put(&mut b, off);
+        put(&mut b, data.len() as u64);
+        b.extend_from_slice(data);
+    }
+    b
+}
+
+fn decode_events(b: &[u8]) -> Option<Vec<vio::Event>> {
+    let mut pos = 0usize;
+    let mut out = vec![];
+    let get = |pos: &mut usize| -> Option<u64> {
+        let v = u64::from_le_bytes(b.get(*pos..*pos + 8)?.try_into().ok()?);
+        *pos += 8;
+        Some(v)
+    };
+    while pos < b.len() {
+        let seq = get(&mut pos)?;
+        let done = get(&mut pos)?;
+        let performed = get(&mut pos)?;
+        let fl = get(&mut pos)? as usize;
+        let file = String::from_utf8(b.get(pos..pos + fl)?.to_vec()).ok()?;
+        pos += fl;
+        let tag = *b.get(pos)?;
+        pos += 1;
+        let off = get(&mut pos)?;
+        let dl = get(&mut pos)? as usize;
+        let data = b.get(pos..pos + dl)?.to_vec();
+        pos += dl;
+        let kind = match tag {
+            1 => vio::Kind::Write { off, data },
+            2 => vio::Kind::Append { data },
+            3 => vio::Kind::SetLen(off),
+            4 => vio::Kind::Fsync,
+            5 => vio::Kind::FsyncData,
+            6 => vio::Kind::Create,
+            7 => vio::Kind::Unlink,
+            8 => vio::Kind::DirSync,
+            9 => vio::Kind::Mark(String::from_utf8(data).ok()?),
+            _ => return None,
+        };
+        out.push(vio::Event {
+            seq,
+            done: if done == 0 { None } else { Some(done) },
+            performed: if performed == 0 { None } else { Some(performed) },
+            file,
+            kind,
+            thread: String::new(),
+            injected: false,
+        });
+    }
+    Some(out)
+}
+
+/// The crash model of the cut enumeration, checked against a real kill: the directory the dead
+/// process left behind must be EXACTLY its pre-image plus every operation its own log shows as
+/// performed, plus some subset of the operations that were in flight (submitted, not yet seen
+/// performed) when it died. `Ok(k)`: explained, with k in-flight operations found applied.
+fn explain_exact(pre: &DirImage, events: &[vio::Event], real: &DirImage) -> Result<usize, Vec<String>> {
+    let mut img = pre.clone();
+    let mut done: Vec<&vio::Event> = events.iter().filter(|e| is_mutation(e) && e.performed.is_some()).collect();
+    done.sort_by_key(|e| e.performed);
+    for e in done {
+        apply_event(&mut img, e);
+    }
+    let mut inflight: Vec<&vio::Event> = events.iter().filter(|e| is_mutation(e) && e.performed.is_none()).collect();
+    inflight.sort_by_key(|e| e.seq);
+    let mut applied = 0usize;
+    for e in inflight {
+        // did it land? compare the region it would change
+        let landed = match &e.kind {
+            vio::Kind::Write { off, data } => real.files.get(&e.file).map_or(false, |f| f.len >= off + data.len() as u64 && f.read_at(*off, data.len()) == *data),
+            vio::Kind::Append { data } => {
+                let l = img.files.get(&e.file).map_or(0, |f| f.len);
+                real.files.get(&e.file).map_or(false, |f| f.len >= l + data.len() as u64 && f.read_at(l, data.len()) == *data)
+            }
+            vio::Kind::SetLen(l) => real.files.get(&e.file).map_or(false, |f| f.len == *l),
+            vio::Kind::Create => real.files.contains_key(&e.file),
+            vio::Kind::Unlink => !real.files.contains_key(&e.file),
+            _ => false,
+        };
+        // (an in-flight write that equals what is there already makes no difference either way)
+        if landed {
+            apply_event(&mut img, e);
+            applied += 1;
+        }
+    }
+    let d = img.diff(real);
+    if d.is_empty() {
+        Ok(applied)
+    } else {
+        Err(d)
+    }
+}
+
+impl CrashX {
+    fn run_kill(&mut self, prop: &str, case: &Value) -> Outcome {
+        use std::io::{Read, Write};
+        let hist = &case["hist"];
+        let target = case["target"].as_u64().unwrap() as usize;
+        let lazy = case["lazy"].as_bool().unwrap_or(false);
+        let mut out = Outcome::default();
+        out.nontrivial = true;
+        self.lazy = lazy;
+        let traced = self.run_traced(prop, hist, target);
+        self.lazy = false;
+        let (ex, _pre, old, tr, _) = match traced {
+            Ok(x) => x,
+            Err(v) => {
+                out.violation = Some(v);
+                return out;
+            }
+        };
+        let new = ex.model.clone();
+        let uni = ex.uni.clone();
+        let cfg0 = ex.cfg.clone();
+        let _ = ex.finish(Ok(()));
+        let mut counts: BTreeMap<(String, &'static str), u64> = BTreeMap::new();
+        let mut targets: Vec<(String, &'static str, u64)> = vec![];
+        for e in &tr.events {
+            if matches!(e.kind, vio::Kind::Mark(_)) {
+                continue;
+            }
+            let c = counts.entry((e.file.clone(), e.kind.tag())).or_insert(0);
+            targets.push((e.file.clone(), e.kind.tag(), *c));
+            *c += 1;
+        }
+        let stride = case["stride"].as_u64().unwrap_or(1).max(1) as usize;
+        let exe = std::env::current_exe().expect("current_exe");
+        let mut found: BTreeMap<String, String> = BTreeMap::new();
+        let mut capped = 0u64;
+        for (k, (file, tag, ordinal)) in targets.iter().enumerate() {
+            if k % stride != 0 && k + 1 != targets.len() {
+                continue;
+            }
+            let what = format!("process killed right before {file}:{tag}#{ordinal} of op #{target}");
+            out.transitions += 1;
+            let root = self.scratch.dir(&format!("kill-{k}"));
+            let _ = std::fs::remove_dir_all(&root);
+            std::fs::create_dir_all(&root).unwrap();
+            struct Rm(PathBuf);
+            impl Drop for Rm {
+                fn drop(&mut self) {
+                    let _ = std::fs::remove_dir_all(&self.0);
+                }
+            }
+            let _rm = Rm(root.clone());
+            let child_case = json!({"hist": hist, "target": target, "lazy": lazy, "fault": {"file": file, "tag": tag, "ordinal": ordinal}});
+            let mut child = match std::process::Command::new(&exe)
+                .args(["killchild", prop])
+                .env("MC_SCRATCH_ROOT", &root)
+                .stdin(std::process::Stdio::piped())
+                .stdout(std::process::Stdio::piped())
+                .stderr(std::process::Stdio::null())
+                .spawn()
+            {
+                Ok(c) => c,
+                Err(e) => {
+                    found.entry("machinery".into()).or_insert(format!("spawn: {e}"));
+                    break;
+                }
+            };
+            let _ = child.stdin.take().unwrap().write_all(child_case.to_string().as_bytes());
+            // wait with a timeout
+            let t0 = std::time::Instant::now();
+            let status = loop {
+                match child.try_wait() {
+                    Ok(Some(st)) => break Some(st),
+                    Ok(None) => {
+                        if t0.elapsed().as_secs() > 30 {
+                            let _ = child.kill();
+                            let _ = child.wait();
+                            break None;
+                        }
+                        std::thread::sleep(std::time::Duration::from_millis(2));
+                    }
+                    Err(_) => break None,
+                }
+            };
+            let mut text = String::new();
+            let _ = child.stdout.take().unwrap().read_to_string(&mut text);
+            let dir = text.lines().find_map(|l| l.strip_prefix("DIR ")).map(PathBuf::from);
+            let returned = text.lines().any(|l| l == "RETURNED");
+            let Some(status) = status else {
+                found.entry("kill-child-hang".into()).or_insert(format!("{what}: the child process neither died nor finished within 30 s"));
+                continue;
+            };
+            use std::os::unix::process::ExitStatusExt;
+            if status.signal() != Some(libc::SIGABRT) {
+                if status.code() == Some(0) && text.lines().any(|l| l == "SURVIVED") {
+                    out.goals.push("kill-point-not-reached");
+                } else {
+                    found.entry("machinery".into()).or_insert(format!("{what}: child ended with {status:?}: {text}"));
+                }
+                continue;
+            }
+            out.goals.push("process-died-at-kill-point");
+            if returned {
+                out.goals.push("killed-after-the-call-returned");
+            }
+            let Some(dir) = dir else {
+                found.entry("machinery".into()).or_insert(format!("{what}: child printed no directory"));
+                continue;
+            };
+            // the raw state the dead process left behind
+            let raw = match DirImage::snapshot(&dir) {
+                Ok(r) => r,
+                Err(e) => {
+                    found.entry("machinery".into()).or_insert(format!("{what}: snapshot: {e}"));
+                    continue;
+                }
+            };
+            // conformance of the crash model: is the raw state made of the pre-image and of
+            // operations the seam recorded in the reference run, and of nothing else?
+            let child_pre = DirImage::snapshot(&root.join("pre"));
+            let child_log = std::fs::read(root.join("trace.bin")).ok().and_then(|b| decode_events(&b));
+            match (child_pre, child_log) {
+                (Ok(cpre), Some(clog)) => match explain_exact(&cpre, &clog, &raw) {
+                    Ok(k) => {
+                        out.goals.push("real-crash-state=pre+performed+subset-of-in-flight");
+                        if k > 0 {
+                            out.goals.push("real-crash-state-has-in-flight-operations-applied");
+                        }
+                    }
+                    Err(d) => {
+                        out.goals.push("real-crash-state-NOT-explained-by-its-own-log");
+                        eprintln!("NOTE (crash-model conformance): {what}: the directory left behind differs from pre-image + performed + in-flight operations of the dead process's own log: {d:?}");
+                    }
+                },
+                _ => out.goals.push("real-crash-log-unavailable"),
+            }
+            // 1. the dead process's lock is gone: open at once, no retry
+            let n = match std::panic::catch_unwind(|| open_nomt::<B3>(&dir, &cfg0)) {
+                Err(_) => {
+                    found.entry("open-after-death-panic".into()).or_insert(format!("{what}: Nomt::open of the directory left behind panicked (at {})", crate::last_panic_location()));
+                    continue;
+                }
+                Ok(Err(e)) => {
+                    found.entry("open-after-death-failed".into()).or_insert(format!("{what}: Nomt::open of the directory left behind failed: {e:#}"));
+                    continue;
+                }
+                Ok(Ok(n)) => n,
+            };
+            let sides = Sides {
+                old: &old,
+                new: Some(&new),
+                new_required_from: if returned { Some(0) } else { None },
+            };
+            if let Err(v) = side_audit(&n, &sides, &uni, 1, &what) {
+                found.entry(v.fingerprint).or_insert(v.msg);
+                continue;
+            }
+            drop(n);
+            // 2. the raw state again, inspected like a synthesised image: decode after recovery,
+            //    occupancy, follow-up commit + rollback, and every cut of the recovery itself
+            let ic = ImageCheck {
+                cfg: &cfg0,
+                uni: &uni,
+                dir: self.scratch.dir("kimg"),
+                nested_dir: self.scratch.dir("kimg-nested"),
+                follow_up: true,
+                cold_follow_up: false,
+                nested: if case["nested"].as_bool().unwrap_or(true) { Some("c03") } else { None },
+                decode: true,
+                occupancy: true,
+            };
+            if let Err(v) = check_image(&ic, &raw, &sides, 1, &format!("{what}; the state left behind"), &mut out, 0, 5, &mut capped) {
+                found.entry(v.fingerprint).or_insert(v.msg);
+            }
+        }
+        out.sig = fnv_str(&format!("{}:{}", targets.len(), found.len()));
+        out.states.push(fnv_str(&format!("{:?}", targets)));
+        let mut it = found.into_iter().map(|(fp, msg)| Violation::new(fp, msg));
+        out.violation = it.next();
+        out.more = it.collect();
+        out
+    }
+}
+
 impl Engine for CrashX {
     fn plan(&self, prop: &str, tier: &str) -> Plan {
         crate::plans::crash_plan(prop, tier)
@@ -1245,6 +1611,7 @@ impl Engine for CrashX {
             "c03" | "c04" | "c17" => self.run_cuts(prop, case),
             "c14" => self.run_faults(prop, case),
             "c14x" => self.run_exhaustion(prop, case),
+            "kill" => self.run_kill(prop, case),
             m => panic!("crashx: unknown mode {m}"),
         }
     }
